@@ -25,6 +25,9 @@ def gen_case(R, tier):
   prof = designgen.profile(c.choice(["shapes", "acyclic"]))
   prof.update(p_connect=0.55, p_lambda=0.05, n_wire=(2, 7))
   spec = designgen.DesignGen(c, prof, uid="n%x" % (R.seed & 0xffffff)).gen()
+  if c.random() < 0.1:
+    from ..gen import templates
+    spec = templates.struct_by_slices(c, "n%x" % (R.seed & 0xffffff))
   o = R("order")
   return {"spec": spec, "orderings": [[o.getrandbits(32), o.getrandbits(32)] for _ in range(5)],
           "inputs": designgen.gen_inputs(spec, R("input"), R("input").randint(4, 8)),
